@@ -77,6 +77,7 @@ type conn struct {
 	preOpen bool // a close notification arrived before the open notification
 	held    bool // the (closed) descriptor number is kept occupied so that nothing else can get it
 	cio     bool // close the conn from inside its open notification
+	eof     bool // the peer's FIN is in the (virtual) receive queue
 }
 
 type sess struct {
@@ -428,6 +429,27 @@ func (s *sess) settle() {
 	}
 }
 
+// kernelFlags: what the kernel really reports of the scripted flags — EPOLLRDHUP only if the registration asked for it
+// (EPOLLERR and EPOLLHUP are reported regardless of the interest set).
+func (s *sess) kernelFlags(ci *conn, fl uint32) uint32 {
+	if ci.v != nil && fl&evRdhup != 0 {
+		if _, _, events := ci.v.CtlLog(); events&evRdhup == 0 {
+			fl &^= evRdhup
+		}
+	}
+	return fl
+}
+
+// finSeen: after an event that carried the peer's FIN (scripted IN|RDHUP with the FIN queued) the conn must be closed.
+func (s *sess) finSeen(e *lp.Exec, ci *conn, scripted uint32, ret string) {
+	if ret != "nil" || !ci.eof || scripted&evRdhup == 0 || scripted&evIn == 0 {
+		return
+	}
+	if !s.isClosed(ci) {
+		e.Oracle("c03-close-once", "conn %d (%s): the peer closed (FIN delivered with readiness) and the conn got no close notification — is EPOLLRDHUP in its interest set?", ci.id, ci.kind)
+	}
+}
+
 func (s *sess) inject(ci *conn, fl uint32) bool {
 	epfd := s.g.VerifEpfd(ci.fd % s.np)
 	return vsys.InjectTimeout(epfd, []syscall.EpollEvent{{Fd: int32(ci.fd), Events: fl}}, 60*time.Second)
@@ -482,7 +504,15 @@ func (s *sess) result(e *lp.Exec, what string, ret string, ci *conn, logd int) {
 	if closed {
 		cl = "1:" + ec
 	}
-	e.P("R %s ret=%s open=[%s] close=[%s] dial=[%s] c=%s left=%d items=%d log=%d", what, ret, opens, closes, dials, cl, left, items, logd)
+	// the registered interest set without the writing bit (the hang-up part never changes across re-arms): what the
+	// kernel will report for this descriptor — EPOLLRDHUP only if it was asked for
+	im := "-"
+	if ci != nil && ci.v != nil && ci.c != nil && ci.kind != "sess" && !closed {
+		if _, reg, events := ci.v.CtlLog(); reg {
+			im = fmt.Sprintf("%x", events&^evOut)
+		}
+	}
+	e.P("R %s ret=%s open=[%s] close=[%s] dial=[%s] c=%s left=%d items=%d log=%d im=%s", what, ret, opens, closes, dials, cl, left, items, logd, im)
 	for _, o := range orc {
 		i := strings.Index(o, " ")
 		e.Oracle(o[:i], "%s", o[i+1:])
@@ -867,10 +897,11 @@ func exec(e *lp.Exec) {
 			ret := "nil"
 			if s.g.VerifConnAt(ci.fd) != ci.c {
 				ret = "gone" // no longer in the fd table: the kernel has nothing to report
-			} else if !s.inject(ci, fl) {
+			} else if !s.inject(ci, s.kernelFlags(ci, fl)) {
 				ret = "stuck"
 			}
 			e.P("> %s", line)
+			s.finSeen(e, ci, fl, ret)
 			s.firstCause(e, ci, was, causes...)
 			s.result(e, "dev", ret, ci, 0)
 			fmt.Fprintf(&key, "d%x%s,", fl, f[3][:1])
@@ -892,19 +923,20 @@ func exec(e *lp.Exec) {
 			ret := "nil"
 			if s.g.VerifConnAt(ci.fd) != ci.c {
 				ret = "gone"
-			} else if !s.inject(ci, fl) {
+			} else if !s.inject(ci, s.kernelFlags(ci, fl)) {
 				ret = "stuck"
 			}
 			if ci.v != nil {
 				ci.v.SetScript(nil)
 			}
 			e.P("> %s", line)
+			s.finSeen(e, ci, fl, ret)
 			s.firstCause(e, ci, was, "eof", "epipe", "reset")
 			s.result(e, "ev", ret, ci, 0)
 			fmt.Fprintf(&key, "e%x,", fl)
 			nontrivial = true
 		case "push", "eof", "rderr":
-			if ci == nil || ci.v == nil || ci.kind == "sess" {
+			if ci == nil || ci.v == nil || ci.c == nil || ci.kind == "sess" {
 				bad()
 				continue
 			}
@@ -913,6 +945,7 @@ func exec(e *lp.Exec) {
 				ci.v.Push(lp.Payload(f[2]))
 			case "eof":
 				ci.v.SetRead(true, 0, 0)
+				ci.eof = true
 			case "rderr":
 				ci.v.SetRead(false, syscall.ECONNRESET, 0)
 			}
@@ -1045,8 +1078,7 @@ func exec(e *lp.Exec) {
 			}
 			// deadlines are real time: wait for the close inside the op, so that nothing else can race with the timer
 			cause := "-"
-			st := ci.c.VerifState()
-			if !was && (st.RTimer || st.WTimer) {
+			if !was { // a deadline was just armed on an open conn (it may even have fired already): it closes the conn
 				s.waitClosed(ci)
 				if s.isClosed(ci) {
 					_, cerr := ci.c.VerifCloseState()
@@ -1175,7 +1207,11 @@ func exec(e *lp.Exec) {
 				bad()
 				continue
 			}
-			ci = &conn{id: id, kind: "rdial", dialOK: f[2] == "ok"}
+			if f[2] != "ok" && f[2] != "okpeer" && f[2] != "refused" {
+				bad()
+				continue
+			}
+			ci = &conn{id: id, kind: "rdial", dialOK: f[2] != "refused"}
 			s.mu.Lock()
 			s.conns[id] = ci
 			s.mu.Unlock()
@@ -1220,6 +1256,26 @@ func exec(e *lp.Exec) {
 						break
 					}
 					time.Sleep(time.Millisecond)
+				}
+			} else if ci.c != nil && f[2] == "okpeer" && acc.c != nil {
+				// the accepted end closes first: the dialed conn (registered for reading AND writing) must learn of the
+				// peer's orderly close (FIN, no reset) and get its close notification
+				_ = acc.c.Close()
+				for i := 0; i < 3000; i++ {
+					s.mu.Lock()
+					n := len(ci.closes)
+					s.mu.Unlock()
+					if n > 0 {
+						break
+					}
+					time.Sleep(time.Millisecond)
+				}
+				s.mu.Lock()
+				n := len(ci.closes)
+				s.mu.Unlock()
+				if n == 0 {
+					e.Oracle("c03-close-once", "dialed conn %d: no close notification 3s after the peer's orderly close (real kernel, mode=%s)", id, s.mode)
+					_ = ci.c.Close()
 				}
 			} else if ci.c != nil {
 				// both ends live in this engine: close the dialing end here and wait for the accepted end to see the
@@ -1306,7 +1362,7 @@ func gen(g *lp.Gen) {
 				g.P("acc %d", id)
 				conns[id] = &ci{kind: "acc"}
 			case listen:
-				g.P("rdial %d %s", id, g.Pick("ok", "refused"))
+				g.P("rdial %d %s", id, g.Pick("ok", "okpeer", "okpeer", "refused"))
 				conns[id] = &ci{kind: "rdial", closed: true}
 			default:
 				typ := g.Pick("tcp", "unix")
@@ -1338,8 +1394,12 @@ func gen(g *lp.Gen) {
 						es = append(es, strconv.Itoa(g.Intn(4)))
 					}
 					g.P("close %d %d %s", id, k, strings.Join(es, ","))
-				case r < 80:
+				case r < 78:
 					g.P("ops %d", id)
+				case r < 84 && c.dialed:
+					// the peer of an established dialed conn closes orderly
+					g.P("eof %d", id)
+					g.P("ev %d in+rdhup -", id)
 				case r < 90:
 					g.P("dev %d %s %s", id, g.Pick("out", "in", "in+rdhup", "out+err+hup"), g.Pick("0", "refused"))
 				default:
